@@ -25,7 +25,7 @@ def hostile(types, desc, n, entry_chunked, cap):
     tree = None
     mr = None
     try:
-        tree, mr = ref_deserialize(types, desc["instrs"], data, entry_chunked)
+        tree, mr = ref_deserialize(types, desc["instrs"], data, entry_chunked, desc["entry"])
     except ValueError:
         ref_raised = True
     check(raised == ref_raised, "ValueError exactly where the reading rules predict a negative string length")
